@@ -46,6 +46,7 @@ import (
 	"github.com/Oneledger/protocol/log"
 	"github.com/Oneledger/protocol/storage"
 	"github.com/Oneledger/protocol/vm"
+	sv "github.com/Oneledger/protocol/zz_sv"
 )
 
 var svOLT = balance.Currency{Id: 0, Name: "OLT", Chain: chain.ONELEDGER, Decimal: 18, Unit: "nue"}
@@ -217,9 +218,34 @@ func svCommitBlock(app *App) []byte {
 	return app.commitor()().Data
 }
 
-// svFreshDeliver gives the deliver state BeginBlock would create.
+// svGasCalc replaces the byte-length based store gas accounting by an
+// environment choice: the store gas consumed by one transaction is an
+// arbitrary number 0 <= used < 2^40 (sizes of serialised records are not
+// modelled; every real consumption is some such number). The first reading is
+// the start mark (0), later readings are the total.
+type svGasCalc struct {
+	reads int
+	used  storage.Gas
+}
+
+func (g *svGasCalc) Consume(amount, category storage.Gas, allowOverflow bool) bool { return true }
+func (g *svGasCalc) GetLimit() storage.Gas                                        { return storage.Gas(1) << 62 }
+func (g *svGasCalc) IsEnough() bool                                               { return false }
+func (g *svGasCalc) GetLeft() uint64                                              { return 1 << 62 }
+func (g *svGasCalc) GetConsumed() storage.Gas {
+	g.reads++
+	if g.reads == 1 {
+		return 0
+	}
+	return g.used
+}
+
+// svFreshDeliver gives the deliver state BeginBlock would create (with the
+// environment gas calculator above).
 func svFreshDeliver(app *App) {
-	app.Context.deliver = storage.NewState(app.Context.chainstate).WithGas(app.getGasCalculator())
+	used := sv.Int64("gas.used")
+	sv.Assume(used >= 0 && used < 1<<40)
+	app.Context.deliver = storage.NewState(app.Context.chainstate).WithGas(&svGasCalc{used: storage.Gas(used)})
 }
 
 func svHeader(h int64) abci.Header { return abci.Header{Height: h, ChainID: "sv"} }
